@@ -1,7 +1,7 @@
-(* C01 micro-step layer: the op-atomic abstraction is NOT valid for the record-absent fast paths of feb.c
-   (micro_atomic_refuted, three witnesses, each reproduced on the real code by tools/c01_micro_probe.py);
-   it is valid for all other pairs of calls, and for all pairs once the fast paths are moved into the stripe
-   critical section (exhaustive over the finite set of op pairs x initial states x interleavings). *)
+(* C01 micro-step layer (two tasks, one word).  The code as it is (since /repo eba51ae) is atomic for every pair of calls
+   (micro_atomic_pairs: exhaustive over the finite set of op pairs x initial states x interleavings, through a checked
+   reachable-set certificate).  The access order before that commit is NOT: micro_atomic_old_refuted and three class
+   witnesses, each of which was reproduced on the real code; kept as regressions about [mstep_old]. *)
 From Coq Require Import List ZArith NArith Bool.
 Import ListNotations.
 From QV Require Import Cell.Spec Feb.Model Feb.Proofs Feb.Micro.
@@ -49,7 +49,7 @@ Section Generic.
 End Generic.
 
 Definition micro_atomic := micro_atomic_with mstep.              (* feb.c as it is *)
-Definition micro_atomic_fixed := micro_atomic_with mstep_fixed.  (* with the proposed repair *)
+Definition micro_atomic_old := micro_atomic_with mstep_old.      (* access order before eba51ae *)
 
 (* ---------------- refutation: three classes of schedules ---------------- *)
 Definition sched_of (l : list nat) : list N := map N.of_nat l.
@@ -57,26 +57,26 @@ Definition sched_of (l : list nat) : list N := map N.of_nat l.
 (* (1) writeF sees "no record", readFE then consumes the OLD value and empties the word, writeF then stores into the emptied
    word without marking it full: the reader got 5, the word is empty and holds 11 -- no order of the two calls does that *)
 Lemma writeF_readFE_bad :
-  exists s, run_with mstep (minit false 5 (OWriteF (Some 11%Z)) (OReadFE DOwn)) (sched_of [0;0;0;1;1;1;1;1;1;0;1;1]%nat) = Some s /\
-            final_with mstep s /\ good_final false 5 (OWriteF (Some 11%Z)) (OReadFE DOwn) s = false /\
+  exists s, run_with mstep_old (minit false 5 (OWriteF (Some 11%Z)) (OReadFE DOwn)) (sched_of [0;0;0;1;1;1;1;1;1;0;1;1]%nat) = Some s /\
+            final_with mstep_old s /\ good_final false 5 (OWriteF (Some 11%Z)) (OReadFE DOwn) s = false /\
             outcome_of s = (Some (OK, None), Some (OK, Some 5%Z), false, 11%Z).
 Proof. eexists. vm_compute. repeat split; reflexivity. Qed.
 
 (* (2) readFF sees "no record", purge_to empties the word and stores 22, readFF then returns 22 although the word is empty *)
 Lemma readFF_purge_bad :
-  exists s, run_with mstep (minit false 5 (OReadFF DOwn) (OPurge (Some 22%Z))) (sched_of [0;0;0;1;1;1;1;0]%nat) = Some s /\
-            final_with mstep s /\ good_final false 5 (OReadFF DOwn) (OPurge (Some 22%Z)) s = false /\
+  exists s, run_with mstep_old (minit false 5 (OReadFF DOwn) (OPurge (Some 22%Z))) (sched_of [0;0;0;1;1;1;1;0]%nat) = Some s /\
+            final_with mstep_old s /\ good_final false 5 (OReadFF DOwn) (OPurge (Some 22%Z)) s = false /\
             outcome_of s = (Some (OK, Some 22%Z), Some (OK, None), false, 22%Z).
 Proof. eexists. vm_compute. repeat split; reflexivity. Qed.
 
 (* (3) purge_to inserts the empty record, writeEF fills the word with 11, purge_to then stores 22 into the FULL word *)
 Lemma purge_writeEF_bad :
-  exists s, run_with mstep (minit false 5 (OPurge (Some 11%Z)) (OWriteEF (Some 22%Z))) (sched_of [0;0;0;1;1;1;1;1;1;0;1;1;1;1;1]%nat) = Some s /\
-            final_with mstep s /\ good_final false 5 (OPurge (Some 11%Z)) (OWriteEF (Some 22%Z)) s = false /\
+  exists s, run_with mstep_old (minit false 5 (OPurge (Some 11%Z)) (OWriteEF (Some 22%Z))) (sched_of [0;0;0;1;1;1;1;1;1;0;1;1;1;1;1]%nat) = Some s /\
+            final_with mstep_old s /\ good_final false 5 (OPurge (Some 11%Z)) (OWriteEF (Some 22%Z)) s = false /\
             outcome_of s = (Some (OK, None), Some (OK, None), true, 11%Z).
 Proof. eexists. vm_compute. repeat split; reflexivity. Qed.
 
-Theorem micro_atomic_refuted : exists pe v oa ob, ~ micro_atomic pe v oa ob.
+Theorem micro_atomic_old_refuted : exists pe v oa ob, ~ micro_atomic_old pe v oa ob.
 Proof.
   exists false, 5%Z, (OWriteF (Some 11%Z)), (OReadFE DOwn). intros H.
   destruct writeF_readFE_bad as (s & R & F & B & _).
@@ -169,34 +169,34 @@ Proof.
   exact (cert_sound stp (good_final pe 5 oa ob) (minit pe 5 oa ob) _ H sched s Hs Hr Hf).
 Qed.
 
-Lemma fixed_all_pairs :
-  forallb (fun pe => forallb (fun oa => forallb (fun ob => check_pair mstep_fixed pe oa ob) (ops_of 22)) (ops_of 11)) [false; true] = true.
+Lemma current_all_pairs :
+  forallb (fun pe => forallb (fun oa => forallb (fun ob => check_pair mstep pe oa ob) (ops_of 22)) (ops_of 11)) [false; true] = true.
 Proof. vm_compute. reflexivity. Qed.
 
-Lemma unfixed_nonracy_pairs :
-  forallb (fun pe => forallb (fun oa => forallb (fun ob => (negb pe && racy oa ob) || check_pair mstep pe oa ob) (ops_of 22)) (ops_of 11)) [false; true] = true.
+Lemma old_nonracy_pairs :
+  forallb (fun pe => forallb (fun oa => forallb (fun ob => (negb pe && racy oa ob) || check_pair mstep_old pe oa ob) (ops_of 22)) (ops_of 11)) [false; true] = true.
 Proof. vm_compute. reflexivity. Qed.
 
-(* with the repair every pair of calls on one word is atomic, from both initial word states *)
-Theorem micro_atomic_fixed_pairs : forall pe oa ob,
-  In oa (ops_of 11) -> In ob (ops_of 22) -> micro_atomic_fixed pe 5 oa ob.
+(* the code as it is: every pair of the 13 x 13 calls on one word is atomic, from both initial word states *)
+Theorem micro_atomic_pairs : forall pe oa ob,
+  In oa (ops_of 11) -> In ob (ops_of 22) -> micro_atomic pe 5 oa ob.
 Proof.
   intros pe oa ob Ha Hb sched s Hs Hr Hf.
-  pose proof fixed_all_pairs as H. rewrite forallb_forall in H.
+  pose proof current_all_pairs as H. rewrite forallb_forall in H.
   assert (Hpe : In pe [false; true]) by (destruct pe; simpl; auto).
   specialize (H pe Hpe). rewrite forallb_forall in H. specialize (H oa Ha). rewrite forallb_forall in H. specialize (H ob Hb).
-  exact (check_pair_sound mstep_fixed pe oa ob H sched s Hs Hr Hf).
+  exact (check_pair_sound mstep pe oa ob H sched s Hs Hr Hf).
 Qed.
 
-(* the code as it is: atomic for every pair outside the racy class (and for every pair when the record already exists) *)
-Theorem micro_atomic_pairs_partial : forall pe oa ob,
-  In oa (ops_of 11) -> In ob (ops_of 22) -> (pe = true \/ racy oa ob = false) -> micro_atomic pe 5 oa ob.
+(* the old order: atomic only outside the racy class (and for every pair when the record already exists) *)
+Theorem micro_atomic_old_pairs_partial : forall pe oa ob,
+  In oa (ops_of 11) -> In ob (ops_of 22) -> (pe = true \/ racy oa ob = false) -> micro_atomic_old pe 5 oa ob.
 Proof.
   intros pe oa ob Ha Hb G sched s Hs Hr Hf.
-  pose proof unfixed_nonracy_pairs as H. rewrite forallb_forall in H.
+  pose proof old_nonracy_pairs as H. rewrite forallb_forall in H.
   assert (Hpe : In pe [false; true]) by (destruct pe; simpl; auto).
   specialize (H pe Hpe). rewrite forallb_forall in H. specialize (H oa Ha). rewrite forallb_forall in H. specialize (H ob Hb).
   apply orb_prop in H. destruct H as [H|H].
   - apply andb_prop in H. destruct H as [H1 H2]. destruct G as [->|G]; [discriminate | congruence].
-  - exact (check_pair_sound mstep pe oa ob H sched s Hs Hr Hf).
+  - exact (check_pair_sound mstep_old pe oa ob H sched s Hs Hr Hf).
 Qed.
